@@ -302,18 +302,25 @@ pub fn gen_case(prop: &str, thorough: bool, weak: bool, rng: &mut Rng) -> Case {
             } else {
                 crate::extras::gen_c16(rng, cfg, thorough)
             };
+            let n_conts = case.prog.conts.len() as u64;
             for t in case.prog.threads.iter_mut().skip(1) {
                 if t.ops.is_empty() || rng.below(3) == 0 {
                     continue;
                 }
                 for _ in 0..(1 + rng.below(2)) {
                     let at = rng.below(t.ops.len() as u64 + 1) as usize;
-                    t.ops.insert(
-                        at,
+                    // either a projection panics on its k-th call, or the destructor of the value
+                    // stored right now does (a cache or a projection guard may be its last owner)
+                    let op = if rng.below(3) == 0 {
+                        Op::ArmStored {
+                            c: rng.below(n_conts) as u8,
+                        }
+                    } else {
                         Op::ArmProjPanic {
                             k: 1 + rng.below(3) as u8,
-                        },
-                    );
+                        }
+                    };
+                    t.ops.insert(at, op);
                 }
             }
             return case;
